@@ -50,8 +50,10 @@ def cases():
             Sink("store:net.res_gen.vm_pu", {}, None, ["net.gen.bus", "lookup.bus", "ppc.bus.*"], deps_only=True),
         ], options={"ac": True, "mode": "pf", "distributed_slack": False}),
         Case("shunt-results", f"{RB}:_get_shunt_results", [
-            Sink("store:net.res_shunt.p_mw", {"V": 1, "A": 1, "vm": 2}, 6, ["net.shunt.p_mw", "net.shunt.step", "net.shunt.vn_kv", "ppc.bus.BASE_KV", "ppc.bus.VM", "is.shunt"]),
-            Sink("store:net.res_shunt.q_mvar", {"V": 1, "A": 1, "vm": 2}, 6, ["net.shunt.q_mvar", "net.shunt.step", "ppc.bus.VM"]),
+            Sink("store:net.res_shunt.p_mw", {"V": 1, "A": 1, "vm": 2}, 6, ["net.shunt.p_mw", "net.shunt.step", "net.shunt.vn_kv", "ppc.bus.BASE_KV", "ppc.bus.VM", "is.shunt"],
+                 together=[("net.shunt.p_mw", "net.shunt.step")]),
+            Sink("store:net.res_shunt.q_mvar", {"V": 1, "A": 1, "vm": 2}, 6, ["net.shunt.q_mvar", "net.shunt.step", "ppc.bus.VM"],
+                 together=[("net.shunt.q_mvar", "net.shunt.step")]),
         ], options={"ac": True, "mode": "pf"}, args={"bus_pq": AV(E, "val", None, sh.ZERO)}),
     ]
     return out
@@ -132,6 +134,8 @@ def run(ctx):
     run_cases(ctx, R, cases(), aspects=("units", "vm", "dec", "needs", "sign"))
     ctx.require_min(R, 16)
     rule_qlim(ctx)
+    from rules.C01 import rule_zip_sibling
+    rule_zip_sibling(ctx)
 
 
 def variants(repo):
@@ -145,5 +149,7 @@ def variants(repo):
         V("ext_grid angle not applied", bg, in_function("_build_pp_ext_grid", lambda s: s.replace('net["ext_grid"]["va_degree"].values[eg_is]', "0.", 1) if 'net["ext_grid"]["va_degree"].values[eg_is]' in s else s.replace("va_degree", "vm_pu", 1)), "store:ppc.bus.VA"),
         V("upper violators fixed at lower limit", nr, replace_once("fixedQg[mx] = gen[mx, QMAX]", "fixedQg[mx] = gen[mx, QMIN]"), "fixedQg[mx]"),
         V("loop exits with lower violations", nr, replace_once("if len(mx) > 0 or len(mn) > 0:", "if len(mx) > 0:"), "QLIM-LOOP"),
+        V("zip coefficient not averaged", "pandapower/build_bus.py", in_function("_calc_pq_elements_and_add_on_ppc", replace_once("CZD_Q] = cz_q_sum / no_loads", "CZD_Q] = cz_q_sum")), "ZIP-SIBLING"),
+        V("step lost for plain shunts next to table shunts", rb, in_function("_get_shunt_results", lambda s: s.replace("merged_df['p_mw'].values).astype(np.float64)\n", "merged_df['p_mw'].values).astype(np.float64)\n            step = 1\n", 1).replace("merged_df['p_mw_char'].values/merged_df['step'].values", "merged_df['p_mw_char'].values", 1)), "res_shunt.p_mw"),
         V("shunt linear in voltage", rb, in_function("_get_shunt_results", replace_once("p_shunt = u_shunt ** 2 * p_shunt_step * shunt_is * v_ratio * step", "p_shunt = u_shunt * p_shunt_step * shunt_is * v_ratio * step")), "res_shunt.p_mw"),
     ]
